@@ -326,6 +326,8 @@ C07_NoSubmitBeyondStop == \A k \in ran : Pt(k.id) <= StopPt
 (* C09: implied outputs, lifecycle (as an action property) *)
 C09_ImpliedOutputs ==
   \A i \in DOMAIN pool : ("succeeded" \in pool[i].outs \/ "failed" \in pool[i].outs) => {"submitted", "started"} \subseteq pool[i].outs
+(* under reordering the implied outputs are completed as soon as a final message has been processed *)
+C09_ImpliedOutputsSettled == C09_ImpliedOutputs
 C09_Step ==
   \A i \in DOMAIN pool \cap DOMAIN pool' :
      /\ pool[i].outs \subseteq pool'[i].outs
